@@ -131,26 +131,26 @@ fn mk_msg(x: &Xfer, e: Enc) -> DltMessage {
 }
 
 #[derive(Clone)]
-enum Tag {
+pub enum Tag {
     Flst,
     Flda(usize),
     Flfi,
     Noise,
 }
 
-struct Built {
+pub struct Built {
     serial: u64,
     name: String,
     content: Vec<u8>,
     pkgs: usize,
     last_shorter: bool,
-    msgs: Vec<(DltMessage, Tag)>,
+    pub msgs: Vec<(DltMessage, Tag)>,
     /// expectation: Some(true) must be complete+identical, Some(false) never complete, None: if complete then identical
     expect: Option<bool>,
     faulty: bool,
 }
 
-fn build_xfer(i: usize, x: &Xfer, fault: Option<&Fault>) -> Built {
+pub fn build_xfer(i: usize, x: &Xfer, fault: Option<&Fault>) -> Built {
     let content = x.content.bytes();
     let len = content.len();
     let mut psize = match x.pkg_mode % 4 {
@@ -435,13 +435,17 @@ fn check_in(c: &Case, rep: &mut Rep, outer: &Path, auto: &Path) -> Result<(), St
     Ok(())
 }
 
-pub fn def(tier: Tier) -> PropertyDef {
-    let xfer = (
+pub fn xfer_strategy() -> impl Strategy<Value = Xfer> {
+    (
         (0u8..3, 1u32..4, 0u8..8),
         (prop::collection::vec(any::<u8>(), 1..24), prop_oneof![4 => 1usize..40, 3 => 1usize..2000, 1 => 1usize..20000]),
         (any::<u16>(), 0u8..4, 0u8..3, any::<bool>(), any::<bool>()),
     )
-        .prop_map(|((ecu, lifecycle, name_kind), (chunk, len), (pkg_sel, pkg_mode, int_width, pkgnr_signed, be))| Xfer { ecu, lifecycle, name_kind, content: Fill { len, chunk }, pkg_sel, pkg_mode, int_width, pkgnr_signed, be });
+        .prop_map(|((ecu, lifecycle, name_kind), (chunk, len), (pkg_sel, pkg_mode, int_width, pkgnr_signed, be))| Xfer { ecu, lifecycle, name_kind, content: Fill { len, chunk }, pkg_sel, pkg_mode, int_width, pkgnr_signed, be })
+}
+
+pub fn def(tier: Tier) -> PropertyDef {
+    let xfer = xfer_strategy();
     let fault = prop_oneof![
         any::<u16>().prop_map(Fault::Drop),
         (any::<u16>(), any::<u16>()).prop_map(|(a, b)| Fault::Dup(a, b)),
